@@ -228,7 +228,7 @@ func lastReturn(n ast.Node, where string) ast.Expr {
 }
 
 // skeleton lists, in source order, the shared-memory / effect operations of a function.
-var skelRe = regexp.MustCompile(`^(atomic\.\w+|.*\.dcasNext|.*\.getNext|.*\.Insert2|.*\.freeItem|.*[fF]reeNode|close|.*\.Lock|.*\.Unlock|.*\.callb|.*\.FlushSession|.*freeq\.Insert|.*freeq\.DeleteNode|.*\.doCleanup|.*\.hasReadySession|.*\.Release|.*\.Acquire|os\.MkdirAll|ioutil\.WriteFile|.*\.Open|.*\.Close|m\.Visitor|m\.changeDeltaWrState|.*snapshots\.Delete|.*gcsnapshots\.Insert|.*gcsnapshots\.DeleteNode|.*\.GC|m\.collectDead|.*store\.DeleteNode|.*\.SetLink|s\.findPath|s\.softDelete|s\.helpDelete|.*\.WriteItem|.*\.Flush|.*\.skipUnwanted|.*iter\.Seek|.*iter\.Next|.*iter\.SeekFirst|it\.Refresh|json\.Unmarshal|b\.Assemble|m\.NewSnapshot)$`)
+var skelRe = regexp.MustCompile(`^(atomic\.\w+|.*\.dcasNext|.*\.getNext|.*\.Insert2|.*\.freeItem|.*[fF]reeNode|close|.*\.Lock|.*\.Unlock|.*\.callb|.*\.FlushSession|.*freeq\.Insert|.*freeq\.DeleteNode|.*\.doCleanup|.*\.hasReadySession|.*\.hasCollectableSnapshot|.*\.Release|.*\.Acquire|os\.MkdirAll|ioutil\.WriteFile|.*\.Open|.*\.Close|m\.Visitor|m\.changeDeltaWrState|.*snapshots\.Delete|.*gcsnapshots\.Insert|.*gcsnapshots\.DeleteNode|.*\.GC|m\.collectDead|.*store\.DeleteNode|.*\.SetLink|s\.findPath|s\.softDelete|s\.helpDelete|.*\.WriteItem|.*\.Flush|.*\.skipUnwanted|.*iter\.Seek|.*iter\.Next|.*iter\.SeekFirst|it\.Refresh|json\.Unmarshal|b\.Assemble|m\.NewSnapshot)$`)
 
 func skeleton(fd *ast.FuncDecl) string {
 	var ops []string
@@ -391,6 +391,8 @@ func main() {
 		emit("def gcStop (sn lastGCSn : Nat) : Bool :=\n  %s\n", tr(s.Cond, env{"sn.sn": "sn", "m.GetLastGCSn()": "lastGCSn"}, "collectDead"))
 		emit("def skeleton_collectDead : List String := %s\n", skeleton(f))
 		emit("def skeleton_GC : List String := %s\n", skeleton(fn("nitro.go", "*Nitro", "GC")))
+		emit("-- nitro.go (*Nitro).hasCollectableSnapshot : the head of the retired list is next in order")
+		emit("def collectableHead (sn lastGCSn : Nat) : Bool :=\n  %s\n", tr(lastReturn(fn("nitro.go", "*Nitro", "hasCollectableSnapshot"), "hasCollectableSnapshot"), env{"sn.sn": "sn", "m.GetLastGCSn()": "lastGCSn"}, "hasCollectableSnapshot"))
 		f = fn("nitro.go", "*Snapshot", "Open")
 		s = ifWith(f, `rc`, "Snapshot.Open")
 		emit("-- nitro.go (*Snapshot).Open : refuse when the observed count satisfies this")
